@@ -565,9 +565,14 @@ func run[T uint32 | uint64](t *testing.T, w WL, cfg simrt.Config) simh.Outcome {
 		counters = map[string]int{}
 		lastSeq  uint64
 	)
+	// initial contents, computed once per provider (shared read-only by every recorded operation)
+	initOf := make([][]uint64, len(w.Provs))
+	for i, p := range w.Provs {
+		initOf[i] = p.values()
+	}
 	uni := set{}
-	for _, p := range w.Provs {
-		for _, v := range p.values() {
+	for i := range w.Provs {
+		for _, v := range initOf[i] {
 			uni[v] = struct{}{}
 		}
 	}
@@ -588,19 +593,19 @@ func run[T uint32 | uint64](t *testing.T, w WL, cfg simrt.Config) simh.Outcome {
 				own := map[int]set{}
 				for i, p := range w.Provs {
 					if p.Owner == ci {
-						own[i] = mkset(p.values())
+						own[i] = mkset(initOf[i])
 					}
 				}
 				for _, op := range ops {
 					op.V, op.Run = op.vals(), nil
-					i := in{P: op.P, K: op.K, V: op.V, Init: w.Provs[op.P].values()}
+					i := in{P: op.P, K: op.K, V: op.V, Init: initOf[op.P]}
 					var operand cardinality.Duplex[T]
 					if op.Q >= 0 {
 						operand = provs[op.Q]
 						if m, ok := own[op.Q]; ok {
 							i.Operand = m.sorted()
 						} else {
-							i.Operand = mkset(w.Provs[op.Q].values()).sorted() // frozen
+							i.Operand = mkset(initOf[op.Q]).sorted() // frozen
 						}
 					}
 					if op.K == "snapwalk" {
@@ -610,13 +615,16 @@ func run[T uint32 | uint64](t *testing.T, w WL, cfg simrt.Config) simh.Outcome {
 						snap := provs[op.P].Clone()
 						content := sortedU64(snap.Slice())
 						ret := s.Seq()
-						ci0 := in{P: op.P, K: "clone", Init: w.Provs[op.P].values()}
+						ci0 := in{P: op.P, K: "clone", Init: initOf[op.P]}
 						hist[ci] = append(hist[ci], porcupine.Operation{ClientId: ci, Input: ci0, Output: outp{S: content}, Call: int64(call), Return: int64(ret)})
 						mutate := w.Provs[op.P].Owner == ci || (w.Provs[op.P].Owner == -1 && !w.Provs[op.P].Frozen)
 						n := 0
 						snap.Each(func(v T) bool {
+							if n >= 6 {
+								return false // asked to stop already: whatever Each does next, the harness does no more work
+							}
 							n++
-							sub := in{P: op.P, K: "contains", V: []uint64{uint64(v)}, Init: w.Provs[op.P].values()}
+							sub := in{P: op.P, K: "contains", V: []uint64{uint64(v)}, Init: initOf[op.P]}
 							if mutate && n%2 == 1 {
 								sub.K = "remove"
 							}
@@ -674,7 +682,7 @@ func run[T uint32 | uint64](t *testing.T, w WL, cfg simrt.Config) simh.Outcome {
 					alien = fmt.Sprintf("p%d holds %d at quiescence, which nobody ever added", pi, v)
 				}
 			}
-			all = append(all, porcupine.Operation{ClientId: len(w.Clients), Input: in{P: pi, K: k, Init: w.Provs[pi].values()}, Output: out, Call: seq, Return: seq + 1})
+			all = append(all, porcupine.Operation{ClientId: len(w.Clients), Input: in{P: pi, K: k, Init: initOf[pi]}, Output: out, Call: seq, Return: seq + 1})
 			seq += 2
 		}
 	}
